@@ -75,6 +75,7 @@ PREDICATES = {
     "nonempty": (lambda x: len(x) > 0, "%s is empty", "str"),
     "bare": (lambda x: x.startswith("zz"), "%s", "str"),
     "truthy_l": (lambda x: bool(x), "%s is falsy", "list"),
+    "value_error": (lambda x: issubclass(x[0], ValueError), "%s is not a ValueError exc_info", "exc"),
 }
 PREDICATES_P = {
     "divisible": (lambda x, k: x % k == 0, "{0} is not divisible by {1}", "int"),
@@ -549,7 +550,7 @@ def leaves(domain, rng=None):
               ["MatchesException", ["instance", "MyErr", ["a", "b"]]],
               ["MatchesException", ["type_re", "ValueError", "x"]],
               ["MatchesException", ["type_re", "LookupError", ".k"]],
-              ["MatchesException", ["type", "KeyboardInterrupt"]]]
+              ["MatchesException", ["type", "KeyboardInterrupt"]], ["MatchesPredicate", "value_error"]]
     elif domain == "call":
         L = [["Raises", None], ["raises", "ValueError"], ["raises", "LookupError"], ["raises", "MyErr"],
              ["raises", "KeyboardInterrupt"]]
